@@ -40,9 +40,9 @@ CLAIMED = {
    technique="Lean 4 proof (inductive invariant over all schedules) + regenerated-flag obligation + controlled-schedule acceptor correspondence + race detector",
    design="§8 C14"),
  "C16": dict(
-   text="Theorems over the timed model of the connection loop, for all timeouts (0 = disabled), expiry absent or anywhere, arbitrary sorted arrival times, optional client close, any horizon: the deadline is the earlier of maximum duration and token expiry; nothing is written at or after it; consecutive writes are at most one heartbeat apart and an open stream is never silent for a whole interval; with a maximum duration the hub ends the connection itself exactly at deadline − dispatch timeout (not earlier); without one it never ends it by a timer and ends it on the first write attempt at or after the expiry. Tie: the real SubscribeHandler inside a synctest bubble (virtual clock) with a ResponseWriter enforcing the armed write deadline; (virtual time, write | failed write | return) traces compared with the model.",
-   note=TB + "PARTIAL: that net/http honours SetWriteDeadline and that select serves a due timer promptly are runtime assumptions (exact under the virtual clock). Same-instant ties are resolved at random by Go's select: the generator avoids them.",
-   technique="Lean 4 proof (loop invariants by induction on fuel) + differential correspondence under a virtual clock",
+   text="Theorems over the timed model of the connection loop, for all timeouts (0 = disabled), expiry absent or anywhere, arbitrary sorted arrival times, optional client close, any horizon AND every resolution of same-instant races (Go's select among the ready cases is a choice parameter of the model: runCh … ch, for all ch): the deadline is the earlier of maximum duration and token expiry; nothing is written at or after it; consecutive writes are at most one heartbeat apart and an open stream is never silent for a whole interval; with a maximum duration the hub ends the connection itself exactly at deadline − dispatch timeout (not earlier; when the dispatch timeout is 0 that instant is the deadline itself and a write that select serves first at that very instant fails and ends the connection there instead: self_disconnect_or_deadline_at_tie, counterexample to the unconditional statement kept as a theorem); without one it never ends it by a timer and ends it on the first write attempt at or after the expiry. Tie: the real SubscribeHandler inside a synctest bubble (virtual clock) with a ResponseWriter enforcing the armed write deadline; (virtual time, write | failed write | return) traces must be one of the traces the model produces over all resolutions (runAll, proved sound and complete for runCh); publishes and client closes are also placed on purpose on the instant a timer is due.",
+   note=TB + "PARTIAL: that net/http honours SetWriteDeadline and that select serves a due timer promptly are runtime assumptions (exact under the virtual clock). Same-instant races are part of the model (choice parameter) and of the generator.",
+   technique="Lean 4 proof (loop invariants by induction on fuel, for every resolution of same-instant races) + acceptor-mode correspondence under a virtual clock",
    design="§8 C16"),
  "C19": dict(
    text="Theorems over the model of the Caddy module (UnmarshalCaddyfile + Provision) and of the legacy options (ValidateConfig + NewHubFromViper): no publisher key ⇒ rejected; no subscriber key without anonymous ⇒ rejected; invalid origin / version / directive ⇒ rejected; what starts has exactly the configured values or the documented defaults; a started hub has a usable publisher key, and a subscriber key unless anonymous; a duration set to 0 is disabled; the transport in effect (kind, file, bucket, history size, cleanup frequency) is the configured one for the `transport` directive, the deprecated transport_url and the legacy option — a well-formed size is applied (strconv.ParseUint modelled: digits only, < 2^64), a malformed size / frequency, an unknown scheme or a missing path is rejected, the URL wins over the directive, omitted parameters take the code's defaults. The repairs of config.go are regenerated facts (witnesses for F10, F12). Tie: random directive sets through the real Caddy module in process (Caddyfile and JSON forms, transports in directive and URL form with well-formed and malformed parameters, read back from the transport that was built) and viper maps through NewHubFromViper; effective options read back and verification key/algorithm probed with the harness's own tokens.",
